@@ -29,8 +29,8 @@ RULE = ("a real CursorAwareWindow (never entered) on a StringIO out_stream and a
         "(a) structured parse cases: extra (fragments a 1 2 ; R ESC [ chr(155) newline e-acute 'ESC[1;' 'ESC[12R' '9;9R' "
         "'ESC[1;2' 'ESC[12' with no complete report) ++ report (7/8-bit CSI, 1-5 digit or 30-digit numbers, leading "
         "zeros) ++ trail, 0-3 OSErrors woven in, callback present/absent; (b) arbitrary fragment streams incl. several "
-        "reports, Eof, truncated reports; thorough: every stream of length <= 5 over {a 1 ; R ESC [ 155 OSError} "
-        "followed by a report and by nothing; (c) histories of set/render/diff/direct-query operations on one window "
+        "reports, Eof, truncated reports; every stream of length <= 3 (thorough: <= 4) over {a 1 ; R ESC [ 155 OSError} and "
+        "(thorough) of length 5-6 over {1 ; R ESC [}, each alone and followed by a 7-bit and an 8-bit report; (c) histories of set/render/diff/direct-query operations on one window "
         "with a shared stream, nested calls fired from inside read(), starting top_usable_row in -3..12 and "
         "_last_cursor_row None or 0..12, terminal heights 1..8, 0..12 array rows; observations after every operation: "
         "return value or exception class, top_usable_row/_last_cursor_row/in_get_cursor_diff/another_sigwinch, "
@@ -433,11 +433,14 @@ def gen_hist(rng):
 SMALL = [ord("a"), ord("1"), SEMI, RR, ESC, LB, CSI8, OSERR]
 
 
-def gen_exhaustive(maxlen):
+SMALLER = [ord("1"), SEMI, RR, ESC, LB]
+
+
+def gen_exhaustive(maxlen, alphabet=SMALL, minlen=0):
     import itertools
     tails = [[], [ESC, LB, 50, SEMI, 51, RR], [CSI8, 52, SEMI, 53, RR]]
-    for n in range(maxlen + 1):
-        for t in itertools.product(SMALL, repeat=n):
+    for n in range(minlen, maxlen + 1):
+        for t in itertools.product(alphabet, repeat=n):
             for tail in tails:
                 yield ("hist", [["set", 0, None], ["pos", True, list(t) + tail]])
 
@@ -452,14 +455,16 @@ def generate(rng, tier):
             chars = extra + csi + [50, SEMI, 51, RR]
             yield ("parse", True, extra, csi, [50], [51], chars, S("xR"))
             yield ("parse", False, extra, csi, [50], [51], [OSERR] + chars[:-1] + [OSERR, chars[-1]], [OSERR] + rep)
-    n = 12000 if tier == "thorough" else 700
+    n = 8000 if tier == "thorough" else 700
     for _ in range(n):
         yield gen_parse(rng)
     for _ in range(n):
         yield gen_hist(rng)
     for _ in range(n // 2):
         yield ("hist", [["set", 0, None], ["pos", rng.random() < 0.7, gen_stream(rng)]])
-    yield from gen_exhaustive(5 if tier == "thorough" else 3)
+    yield from gen_exhaustive(4 if tier == "thorough" else 3)
+    if tier == "thorough":
+        yield from gen_exhaustive(6, SMALLER, 5)
 
 
 def stats(inp, out):
